@@ -312,6 +312,9 @@ func (e *Enc) strLit(s string) Term {
 	// identity and length are facts about a constant: declare as decl-level asserts
 	e.vc.decl(fmt.Sprintf("(assert (= (strid %s) %d))", name, id))
 	e.vc.decl(fmt.Sprintf("(assert (= (strlen %s) %s))", name, e.intConstW(big.NewInt(int64(len(s))), 64).S))
+	if e.declared["uf:ext_strings_ToLower_r0"] && strings.ToLower(s) == s {
+		e.vc.decl(fmt.Sprintf("(assert (= (ext_strings_ToLower_r0 %s) %s))", name, name))
+	}
 	if len(s) <= 12 {
 		for i := 0; i < len(s); i++ {
 			e.vc.decl(fmt.Sprintf("(assert (= (strat %s %s) %s))", name, e.intConstW(big.NewInt(int64(i)), 64).S, e.intConstW(big.NewInt(int64(s[i])), 8).S))
